@@ -27,18 +27,26 @@ struct Interp : World<Spline, TM, SM>
     static constexpr int DIM = W::DIM;
     static constexpr int ORDER = W::ORDER;
 
+    bool plan_prop_is_c16 = false;
     Mat exposed_snapshot[W::kHandles];
     bool exposed_known[W::kHandles] = {false, false, false};
     bool msg_known[W::kHandles] = {false, false, false};
 
     explicit Interp(RunCtx &c) : W(c) {}
 
+    // a user time map with a restricted range (C16 plans only) cannot carry an evaluation
+    bool evaluable(const Model &m) const
+    {
+        if constexpr (W::kSimMaps)
+            if (m.tm_user >= 0 && user_tm[(size_t)m.tm_user]->kind == 3) return false;
+        return true;
+    }
     int pick(int64_t v, bool need_valid) const
     {
         for (int q = 0; q < W::kHandles; ++q)
         {
             int k = (int)((((v + q) % W::kHandles) + W::kHandles) % W::kHandles);
-            if (h[k].o && (!need_valid || h[k].m.valid)) return k;
+            if (h[k].o && (!need_valid || (h[k].m.valid && evaluable(h[k].m)))) return k;
         }
         return -1;
     }
@@ -387,7 +395,23 @@ struct Interp : World<Spline, TM, SM>
             ctx.count("probe.default_serial_executor");
         }
         else
+        {
+            env::Hooks &hkk = env::hooks();
+            if (checks & CHK_TRACE) { NoRace g; hkk.backward_args.clear(); hkk.record_backward = true; }
             got = W::call_eval(*H.o, x, cc, w, ex, three);
+            hkk.record_backward = false;
+            if ((checks & CHK_TRACE) && W::kSimMaps)
+            {
+                // the time map's backward rule is handed, per segment, the variable and exactly the duration decoded from it
+                Problem<DIM> q = this->decode_model(m, x);
+                SIM_CHECK((int)hkk.backward_args.size() == m.prob.N(), "time_map_backward_calls", "backward() of the time map called " << hkk.backward_args.size() << " times for " << m.prob.N() << " segments");
+                for (int i = 0; i < m.prob.N(); ++i)
+                    SIM_CHECK(same_bits(hkk.backward_args[(size_t)i].first, x(i)) && same_bits(hkk.backward_args[(size_t)i].second, q.T[(size_t)i]), "time_map_backward_argument",
+                              "backward() for segment " << i << " received (tau=" << hkk.backward_args[(size_t)i].first << ", T=" << fmt_double(hkk.backward_args[(size_t)i].second)
+                                                        << ") instead of (x_i, toTime(x_i)=" << fmt_double(q.T[(size_t)i]) << ")");
+                ctx.count("oracle.time_map_backward_arguments");
+            }
+        }
         if (!w) { H.m.has_internal_ws = true; ctx.count("probe.builtin_workspace_used"); }
         const bool finite_expected = prog.style != 2 && xmode != 5;
         if (finite_expected) SIM_CHECK(std::isfinite(got.cost), "cost_finite", "cost is not finite on a well-scaled problem: " << got.cost);
@@ -701,6 +725,7 @@ struct Interp : World<Spline, TM, SM>
     {
         env::Hooks &hk = env::hooks();
         hk = env::Hooks();
+        plan_prop_is_c16 = plan.prop == "C16";
         const int64_t ycfg = plan.CI(0);
         hk.yield_in_maps = (ycfg & 1) != 0;
         hk.yield_in_costs = (ycfg & 2) != 0;
@@ -710,7 +735,8 @@ struct Interp : World<Spline, TM, SM>
         prog = env::CostProgram<DIM>::make((uint64_t)plan.CI(2, 1), 48, ORDER, plan.CI(3) & 1, (int)(((plan.CI(7) % 4) + 4) % 4));
         for (int q = 0; q < W::kUserMaps; ++q)
         {
-            user_tm.emplace_back(new TM(TMTraits<TM>::make(q % 3, 0.75 + 0.5 * q)));
+            // (C16 plans get a user time map with a restricted range: the verdict must not depend on the map)
+            user_tm.emplace_back(new TM(TMTraits<TM>::make(plan.prop == "C16" && q == 1 ? 3 : q % 3, 0.75 + 0.5 * q)));
             user_sm.emplace_back(new SM(SMTraits<SM>::make((int)((plan.CI(4) + q) % 5), 1.0 + 0.25 * q)));
         }
         // handle 0 exists from the start and is configured by the first operations
@@ -773,8 +799,8 @@ struct Interp : World<Spline, TM, SM>
             {
                 int k = pick(o.I(0), false);
                 if (k < 0) break;
-                static const double vals[] = {0.0, 1e-6, 1e-3, 0.05, 1.0};
-                h[k].m.rho = vals[((o.I(1) % 5) + 5) % 5] * ((plan.CI(3) & 1) ? 1e-3 : 1.0);
+                static const double vals[] = {0.0, 1e-6, 1e-3, 0.05, 1.0, 1e-16, 4.9e-324};
+                h[k].m.rho = vals[((o.I(1) % 7) + 7) % 7] * ((plan.CI(3) & 1) ? 1e-3 : 1.0);
                 h[k].o->setEnergyWeights(h[k].m.rho);
                 break;
             }
@@ -782,7 +808,7 @@ struct Interp : World<Spline, TM, SM>
             {
                 int k = pick(o.I(0), false);
                 if (k < 0) break;
-                h[k].m.K = 1 + (int)(((o.I(1) - 1) % 64 + 64) % 64);
+                h[k].m.K = 1 + (int)(((o.I(1) - 1) % 256 + 256) % 256);
                 h[k].o->setIntegralNumSteps(h[k].m.K);
                 break;
             }
@@ -851,7 +877,7 @@ struct Interp : World<Spline, TM, SM>
                     h[s].m = Model();
                     exposed_known[s] = false;
                     ctx.count("fault.src_destroy");
-                    if (h[dst].m.valid)
+                    if (h[dst].m.valid && evaluable(h[dst].m))
                     {
                         xm = this->gen_x(h[dst].m, (uint64_t)o.I(2), 0);
                         CC cc;
@@ -866,7 +892,7 @@ struct Interp : World<Spline, TM, SM>
                 }
                 check_exposed_untouched("after copy/assign", -1);
                 // the copy evaluates identically to its source, right away
-                if (h[s].m.valid)
+                if (h[s].m.valid && evaluable(h[s].m))
                 {
                     Eigen::VectorXd x = this->gen_x(h[s].m, (uint64_t)o.I(2), 0);
                     CC cc;
@@ -941,6 +967,15 @@ struct Interp : World<Spline, TM, SM>
             {
                 int a = (int)(((o.I(0) % W::kWS) + W::kWS) % W::kWS), b = (int)(((o.I(1) % W::kWS) + W::kWS) % W::kWS);
                 if (a == b || !ws[a]) break;
+                if ((o.I(2) & 6) == 2)
+                {
+                    // the workspace is moved from; the moved-from object (valid but unspecified) stays in the pool and is reused
+                    ws[b].reset(new WS(std::move(*ws[a])));
+                    this->ws_last_user[b] = this->ws_last_user[a];
+                    this->ws_last_N[b] = this->ws_last_N[a];
+                    ctx.count("probe.workspace_moved_from_then_reused");
+                    break;
+                }
                 if (ws[b] && (o.I(2) & 1)) *ws[b] = *ws[a];
                 else ws[b].reset(new WS(*ws[a]));
                 this->ws_last_user[b] = this->ws_last_user[a];
@@ -955,7 +990,7 @@ struct Interp : World<Spline, TM, SM>
         {
             if (!h[k].o) continue;
             if (h[k].m.configured) check_validity(k, "final", false);
-            if (!h[k].m.valid) continue;
+            if (!h[k].m.valid || !evaluable(h[k].m)) continue;
             this->check_dimension(h[k], "final");
             Eigen::VectorXd x = this->gen_x(h[k].m, 977 + k, 0);
             CC cc;
